@@ -22,4 +22,14 @@ PROPS = {
         "modelled": COMMON_MODELLED + ["tpm12/tpm_process.c TPM_Process, TPM_Process_GetCommandParams, TPM_Process_Unused, TPM_Process_Init's missing StoreFinalResponse; tpm12/tpm_store.c StoreInitialResponse/StoreFinalResponse/AdjustParamSize/AdjustReturnCode; tpm12/tpm_sizedbuffer.c TPM_SizedBuffer_Load: modelled by hand in Model/Tpm12Frame.lean; ordinal table, tags, error codes, buffer limits generated (Gen/Tpm12.lean)"],
         "assumptions": ["TPM_Process_Preprocess returns 0 (self test passes, saved-state deletion and locality callback succeed) in the campaign", "localities 0..4 only"],
     },
+    "C20": {
+        "shards": {"quick": 4, "thorough": 16},
+        "timeout": {"quick": 900, "thorough": 3400},
+        "rule": "evaluation = one operation on the real TPM 1.2 (TPM_Extend / PCRRead / PCR_Reset / SHA1Start/Update/Complete/CompleteExtend / TPM_IO_Hash_Start/Data/End / TPM_IO_TpmEstablished_Get/Reset / Startup) whose return code and output bytes are predicted by Model.Tpm12.Core.step with the Lean SHA-1; distinct_nontrivial = distinct (operation, PCR class, locality, model return code) combinations + restart/resume classes",
+        "partial": ["modelled services: PCR extend/read/reset with locality rules and reset values, SHA-1 thread, TIS hash interface, tpmEstablished, power cycle and suspend/resume of these. NOT modelled (not claimed): monotonic counters, NV areas and their permission bits, OIAP/OSAP authorization HMACs, ownership/enable/activate flag automaton, Startup(ST_STATE|ST_DEACTIVATED), TPM_SaveState",
+                    "SHA-1 is a Lean definition validated by NIST vectors (examples in Props/C20.lean) and against the library's OpenSSL results on every SHA1Complete/Extend/Hash_End of the campaign; 'equals standard SHA-1 for every chunking' is proved as streaming = one-shot of this definition",
+                    "the TPM is assumed enabled and activated (TPM_ENABLE_ACTIVATE build default); a second TPM_IO_Hash_Start without Hash_End is not exercised"],
+        "modelled": COMMON_MODELLED + ["tpm12/tpm_pcr.c (TPM_ExtendCommon, TPM_Process_Extend/PcrRead/PcrReset, TPM_Locality_Check, TPM_PCR_Reset), tpm12/tpm_cryptoh.c SHA1 ordinals, TPM_Check_SHA1Context, TPM_CheckState, TPM_Process_Startup(ST_CLEAR), tpm_tpm12_tis.c: modelled by hand in Model/Tpm12Core.lean; PCR attributes, initial and reset values, error codes generated by calling the repo's TPM_PCRAttributes_Init / TPM_PCR_Init / TPM_PCR_Reset (Gen/Tpm12.lean)"],
+        "assumptions": ["localities 0..4", "well-framed commands (framing is C18)"],
+    },
 }
